@@ -2,6 +2,11 @@ NOTES = ("All checks: ./check <ID> --tier quick|thorough, VERIF_SEED respected, 
          "fix: commits in /repo are listed in known_findings.json as fixed entries.")
 NOT_APPLICABLE = {}
 CHECKS = {
+ "C01": {
+  "technique": "Hypothesis property-based testing of generated programs with a read-back oracle (re-execution with inline-snapshot inactive) on an in-process driver and on real pytest sessions",
+  "text": "Generated programs (1-3 empty sites, five operations, six placements, loops, shared module-level sites) over a recursive value universe are created in process and read back by evaluating the written argument in the re-executed module and recomputing the observed comparisons on the plain value; a second arm does it through real pytest sessions (create, then disable) including externals and HasRepr import insertion. Exploration: held on everything generated.",
+  "note": "value universe bounded by max_leaves per tier; preconditions v==v, deepcopy(v)==v, ordered families for bounds; python eval is the trusted reader",
+ },
  "C12": {
   "technique": "exhaustive small-scope enumeration + Hypothesis property-based testing with a read-back (round-trip) oracle",
   "text": "Every string over a 7-symbol adversarial alphabet up to length 5 (quick) / 7 (thorough) is generated exhaustively and read back with ast.literal_eval; random Unicode/bytes beyond; end-to-end sessions place the string at 12 positions x create/fix/update x 8 formatter configurations and evaluate the rewritten argument. Held-on-everything-explored, not absence.",
